@@ -3,6 +3,7 @@
 //! Every sub-command executes operation sequences against the real API and
 //! writes an ndjson trace that a `*_Trace.tla` module validates; no
 //! interpretation of observed state happens here.
+mod conc;
 mod session;
 mod table;
 mod uf;
@@ -19,6 +20,7 @@ fn main() {
         "uf" => uf::main(rest),
         "session" => session::main(rest),
         "table" => table::main(rest),
+        "conc" => conc::main(rest),
         other => Err(format!("unknown driver {other}")),
     };
     if let Err(e) = r {
